@@ -1,5 +1,6 @@
 from __future__ import annotations
 
+import copy
 import importlib
 from itertools import product
 
@@ -27,7 +28,9 @@ def _rng_from_bitgen(bitgen):
 
 
 def _spawn_bitgens(bitgen, n_bitgens):
-    seeds = bitgen._seed_seq.spawn(n_bitgens)
+    # Spawn from a copy: ``SeedSequence.spawn`` advances its child counter, and
+    # the seeds of an expression must be a pure function of its operands.
+    seeds = copy.deepcopy(bitgen._seed_seq).spawn(n_bitgens)
     bitgens = [type(bitgen)(seed) for seed in seeds]
     return bitgens
 
@@ -108,7 +111,8 @@ class Random(IO):
             # root RNG via one SeedSequence — deterministic from the root, so
             # recompute is stable and da.random.seed still controls it — and let
             # the worker rebuild the state (see _apply_random).
-            root_entropy = int.from_bytes(self.rng._numpy_state.bytes(16), "little")
+            # Draw from a copy: the derivation must not advance the operand.
+            root_entropy = int.from_bytes(copy.deepcopy(self.rng._numpy_state).bytes(16), "little")
             words = (
                 np.random.SeedSequence(root_entropy)
                 .generate_state(len(sizes) * 4, dtype=np.uint32)
